@@ -146,7 +146,13 @@ class Env(object):
         # query = a few reference cells
         self.query = self.work / 'query.h5ad'
         n = n_query
-        mapworld.write_h5ad(self.query, self.ref.X[:n],
+        Xq = self.ref.X[:n].copy()
+        # half of the query cells are mixtures of cells of different leaves:
+        # their bootstrap votes split and tie between candidate types
+        for i in range(n // 2, n):
+            a, b = rng.integers(0, len(self.ref.X), size=2)
+            Xq[i] = np.floor((self.ref.X[a] + self.ref.X[b]) / 2.0)
+        mapworld.write_h5ad(self.query, Xq,
                             [f'q{i}' for i in range(n)], self.ref.genes,
                             encoding='csr')
         self.n_query = n
@@ -178,7 +184,9 @@ def run_stage(env, stage, out_dir, n_proc=None):
         if stage == 'mapping':
             cfg = pw.mapping_config(out_dir, env.query, env.stats,
                                     env.lookup, chunk_size=3,
-                                    n_processors=NP(5))
+                                    n_processors=NP(5),
+                                    bootstrap_iteration=6,
+                                    bootstrap_factor=0.5, n_runners_up=4)
             outs['config'] = cfg
             from cell_type_mapper.cli.from_specified_markers import (
                 run_mapping)
@@ -200,16 +208,16 @@ def run_stage(env, stage, out_dir, n_proc=None):
                 marker_lookup=lk, reference_gene_names=list(env.ref.genes),
                 query_gene_names=list(env.ref.genes),
                 output_cache_path=cache, taxonomy_tree=tree, min_markers=2)
-            fl = {lv: 0.7 for lv in tree.hierarchy[:-1]}
-            fl['None'] = 0.7
+            fl = {lv: 0.5 for lv in tree.hierarchy[:-1]}
+            fl['None'] = 0.5
             with pw.quiet():
                 res = run_type_assignment_on_h5ad(
                     query_h5ad_path=env.query,
                     precomputed_stats_path=env.stats,
                     marker_gene_cache_path=cache, taxonomy_tree=tree,
                     n_processors=NP(5), chunk_size=3,
-                    bootstrap_factor_lookup=fl, bootstrap_iteration=5,
-                    rng=np.random.default_rng(5), n_assignments=3,
+                    bootstrap_factor_lookup=fl, bootstrap_iteration=6,
+                    rng=np.random.default_rng(5), n_assignments=5,
                     normalization='raw', tmp_dir=str(env.tmp), log=None,
                     max_gb=1.0, results_output_path=None)
             outs['returned'] = res
